@@ -1,5 +1,5 @@
 """C09 - pestle integrates every point of the domain exactly once."""
-import sys, re
+import sys, re, os
 from fractions import Fraction as Fr
 import numpy as np
 from .. import plotgen, oracle, leanio, pools, geom
@@ -205,7 +205,63 @@ def mixed_spec(rng, i):
     return spec
 
 
+def directories_session(ctx, rep, seed):
+    from amr_kitchen import PlotfileCooker
+    from amr_kitchen.pestle.pestle import volume_integral
+    from .. import sessions
+    dirs = sessions.two_directories(ctx, seed, "c09dirs_", ndims=3, nlev=2, nf=3, data="smallint", B=4, nblk=[2, 1, 1],
+                                    refine_p=0.5, layout="scatter", single0=False)
+    case = {"directories_session": seed}
+    rep.case({"dirsession": seed}, nontrivial=True); rep.count("relative-names-from-two-working-directories-real-pool")
+
+    def action(k, name, spec, truth):
+        try:
+            got = float(volume_integral(PlotfileCooker(name, ghost=True), spec["fields"][0]))
+        except Exception as e:
+            return f"pestle on the plotfile opened as {name!r} raised {type(e).__name__}: {e}"
+        w = float(exact_integral(spec, truth, 0, None, len(spec["levels"]) - 1))
+        if abs(got - w) > 1e-9 * max(1.0, abs(w)):
+            return f"integral {got} of the plotfile opened as {name!r} is not the sum over the cells of THIS directory's plotfile ({w})"
+        return None
+    bad = sessions.visit(dirs, action)
+    if bad:
+        rep.fail(bad, case)
+    else:
+        rep.agree()
+
+
+def damaged_input(ctx, rep, seed):
+    """a binary file cut short: the integral cannot be computed; a number returned normally is a partial sum"""
+    import random
+    from amr_kitchen import PlotfileCooker
+    from amr_kitchen.pestle.pestle import volume_integral
+    rng = random.Random(seed)
+    spec = make_spec(rng, 0)
+    spec["data"] = {"mode": "pestle", "seed": rng.randrange(1 << 30)}
+    path = ctx.newdir("c09cut_")
+    plotgen.materialize(spec, path)
+    case = {"damaged_input": seed}
+    rep.case({"damaged": seed}, nontrivial=True); rep.count("truncated-binary-file")
+    for lv in (0, len(spec["levels"]) - 1):
+        d = os.path.join(path, f"Level_{lv}")
+        f = os.path.join(d, sorted(x for x in os.listdir(d) if x.startswith("Cell_D"))[-1])
+        data = open(f, "rb").read()
+        open(f, "wb").write(data[: len(data) - 24])
+        try:
+            with alarm(180), quiet(), pools.controlled():
+                got = volume_integral(PlotfileCooker(path, ghost=True), "one")      # the last field: its data end the file
+            rep.fail(f"pestle returned {got} for a plotfile whose binary file {os.path.relpath(f, path)} is cut short "
+                     "(a partial sum, not the integral)", case)
+            return
+        except Exception:
+            pass
+        open(f, "wb").write(data)
+    rep.agree()
+
+
 def run(ctx, rep, model=True):
+    directories_session(ctx, rep, ctx.rng.randrange(1 << 30))
+    damaged_input(ctx, rep, ctx.rng.randrange(1 << 30))
     n = 16 if ctx.quick else 80
     for i in range(n):
         spec = make_spec(ctx.rng, i) if i % 2 == 0 else mixed_spec(ctx.rng, i // 2)
@@ -240,6 +296,10 @@ def run(ctx, rep, model=True):
 
 def replay(ctx, rep, obj, model=True):
     c = obj["case"]
+    if "directories_session" in c:
+        directories_session(ctx, rep, c["directories_session"]); return
+    if "damaged_input" in c:
+        damaged_input(ctx, rep, c["damaged_input"]); return
     pck = None
     if c.get("history"):
         pck = [None, []]
